@@ -88,6 +88,10 @@ func (vc *VC) callModifies(c *ssa.CallCommon, mod map[string]bool) {
 			mod["alloc"] = true
 			return
 		}
+		if strings.HasPrefix(calleeName(f), "(*strings.Builder).") {
+			mod[builderAccHeap] = true
+			return
+		}
 		if n := calleeName(f); len(c.Args) > 0 && strings.HasPrefix(n, "(*sync.") {
 			if md, _, _ := vc.monitorOf(c.Args[0]); md != nil {
 				if strings.HasSuffix(n, "Lock") && !strings.HasSuffix(n, "Unlock") {
@@ -260,6 +264,9 @@ func (vc *VC) call(in ssa.Instruction, c *ssa.CallCommon, st *State, reach Term)
 		if r, ok := vc.monitorCall(calleeName(f), c, st, reach, rt, pos); ok {
 			return r
 		}
+		if r, ok := vc.builderModel(calleeName(f), args, st, reach, rt, pos); ok {
+			return r
+		}
 		if r, ok := vc.stdlibModel(calleeName(f), c, args, st, reach, rt, pos); ok {
 			return r
 		}
@@ -399,6 +406,11 @@ func (vc *VC) havocByTypes(ts []types.Type, all bool, st *State) {
 			return
 		}
 		seen[t] = true
+		if isStringsBuilder(t) {
+			if _, ok := vc.heapSort[builderAccHeap]; ok {
+				names[builderAccHeap] = true
+			}
+		}
 		switch u := t.Underlying().(type) {
 		case *types.Pointer:
 			if at, ok := u.Elem().Underlying().(*types.Array); ok {
@@ -869,7 +881,7 @@ func (vc *VC) next(x *ssa.Next, st *State, reach Term) {
 	k := vc.freshTyped(st, x.Name()+".k", mt.Key(), reach)
 	v := vc.freshTyped(st, x.Name()+".v", mt.Elem(), reach)
 	vc.addAssume(reach, and(app("<=", "0", pos),
-		implies(okc, and(app("select", app(ms.present(), m), vc.asTerm(k)), eq(v.t, app("select", app(ms.vals(), m), vc.asTerm(k))))),
+		implies(okc, and(app("select", app(ms.present(), m), vc.mapKey(k, mt.Key())), eq(v.t, app("select", app(ms.vals(), m), vc.mapKey(k, mt.Key()))))),
 		implies(eq(mref, "0"), not(okc))))
 	vc.heapSet(st, hn, "Int", app("+", pos, "1"))
 	if vc.mapRangeNoInsert(r) {
@@ -882,9 +894,9 @@ func (vc *VC) next(x *ssa.Next, st *State, reach Term) {
 		kq := vc.freshName("k")
 		vc.quantCtx = true
 		vc.addAssume(reach, and(
-			implies(okc, not(app("select", seen, vc.asTerm(k)))),
+			implies(okc, not(app("select", seen, vc.mapKey(k, mt.Key())))),
 			implies(not(okc), "(forall (("+kq+" "+ks+")) (! (=> (select ("+ms.present()+" "+m+") "+kq+") (select "+seen+" "+kq+")) :pattern ((select ("+ms.present()+" "+m+") "+kq+"))))")))
-		vc.heapSet(st, sn, "(Array "+ks+" Bool)", ite(okc, app("store", seen, vc.asTerm(k), "true"), seen))
+		vc.heapSet(st, sn, "(Array "+ks+" Bool)", ite(okc, app("store", seen, vc.mapKey(k, mt.Key()), "true"), seen))
 		vc.assume("map range without insertion (checked syntactically): each entry is produced at most once and the loop ends only when every entry still present was produced (Go language definition of range over a map)")
 	}
 	vc.assume("map range: yields arbitrary present keys; completeness/termination of map iteration assumed")
@@ -1084,7 +1096,11 @@ func (vc *VC) mapRangeNoInsert(x *ssa.Range) bool {
 				switch y := in.(type) {
 				case *ssa.MapUpdate:
 					if n, _, _ := vc.mapHeapName(y.Map.Type().Underlying().(*types.Map)); n == hn {
-						res = false
+						// an update of a map this activation made itself (and that is not the one ranged over)
+						// creates no entry in the ranged map
+						if mk, ok := y.Map.(*ssa.MakeMap); !ok || ssa.Value(mk) == x.X {
+							res = false
+						}
 					}
 				case ssa.CallInstruction:
 					if bi, ok := y.Common().Value.(*ssa.Builtin); ok && (bi.Name() == "delete" || bi.Name() == "clear") {
